@@ -43,8 +43,8 @@ CLAIMED = {
     "C09": ("Coq proof chain on the grid model (G3/G4/GP/GQ/GR/GT2: successor, compare = rank order, oracle invariant over all runs, STOPPED => permutation of all combinations) + differential correspondence with GridSearchOracle",
             "C09_successor: _get_next_combination is the successor function of the lexicographic enumeration `combos` of the valid assignments (conditions nested to any depth); C09_compare: _compare is the order of positions; "
             "C09_invariant: the invariant GInv (ordered list strictly increasing in rank from rank 0, every element closed / pending / ongoing) holds in every state of every run - any number of tuners, any finishing order, "
-            "INVALID/FAILED/retry patterns; C09_stopped_complete: whenever populate_space answers STOPPED the trials' values are a permutation of all combinations (each exactly once; the first is all-defaults). PARTIAL: spaces discovered "
-            "while trials run and save+reload are explored on the implementation (exactly-once at STOPPED over the final space; end_trial also called with reconstructed trial copies), not proved.",
+            "INVALID/FAILED/retry patterns; C09_stopped_complete: whenever populate_space answers STOPPED the trials' values are a permutation of all combinations (each exactly once; the first is all-defaults); C09_invariant_reload: the same invariant with save+reload at any point of the run (linked list and pending queue persisted, payloads back from the trial files: LSync.DSync). PARTIAL: spaces discovered "
+            "while trials run are explored on the implementation (exactly-once at STOPPED over the final space; end_trial also called with reconstructed trial copies), not proved.",
             "Trusted: Coq kernel/vm_compute; python harness; values interned as positions in [default]+values; static well-ordered space with distinct names; max_trials=None, failure limit not reached.", "DESIGN.md section 6 C09"),
     "C06": ("Coq proof on Rand.v (sampling loop, tried set, re-hash at end_trial; invariant TInv and run-level pairwise distinctness for static spaces; bounded effort) + differential correspondence with RandomSearchOracle",
             "C06_sample_is_fresh: what _random_values returns is not in the tried set; C06_step: the invariant 'every stored trial is in the tried set under its id' is preserved and a newly created trial differs from every stored one; "
